@@ -52,51 +52,35 @@ theorem stepMain_post (cfg : Cfg) (e : Env) (s : Sub) (hp : Post s.pc) :
   | readEoq v => exact absurd rfl (hp2 v)
   | tryRecv =>
     simp only [stepMain]
-    (repeat' split) <;> refine ⟨⟨by simp, by simp⟩, rfl, ?_⟩
-    · exact ⟨[], by simp, rfl⟩
-    · exact ⟨[.error, .closed], rfl, rfl⟩
-    · exact ⟨[], by simp, rfl⟩
-    · exact ⟨[], by simp, rfl⟩
+    (repeat' split) <;> refine ⟨⟨by simp, by simp⟩, rfl, ?_⟩ <;>
+      first | exact ⟨_, rfl, rfl⟩ | exact ⟨_, rfl, by simp [logRead]⟩ | exact ⟨[], by simp, rfl⟩
   | loop i =>
     simp only [stepMain]
-    (repeat' split) <;> refine ⟨⟨by simp, by simp⟩, rfl, ?_⟩
-    · exact ⟨[], by simp, rfl⟩
-    · exact ⟨_, rfl, by simp [logRead]⟩
-    · exact ⟨[], by simp, rfl⟩
-    · exact ⟨[], by simp, rfl⟩
+    (repeat' split) <;> refine ⟨⟨by simp, by simp⟩, rfl, ?_⟩ <;>
+      first | exact ⟨_, rfl, rfl⟩ | exact ⟨_, rfl, by simp [logRead]⟩ | exact ⟨[], by simp, rfl⟩
   | afterLoop =>
     simp only [stepMain]
-    (repeat' split) <;> refine ⟨⟨by simp, by simp⟩, rfl, ?_⟩
-    · exact ⟨[], by simp, rfl⟩
-    · exact ⟨[.error, .closed], rfl, rfl⟩
-    · exact ⟨[], by simp, rfl⟩
+    (repeat' split) <;> refine ⟨⟨by simp, by simp⟩, rfl, ?_⟩ <;>
+      first | exact ⟨_, rfl, rfl⟩ | exact ⟨_, rfl, by simp [logRead]⟩ | exact ⟨[], by simp, rfl⟩
   | sendPending =>
     simp only [stepMain]
-    (repeat' split) <;> refine ⟨⟨by simp, by simp⟩, rfl, ?_⟩
-    · exact ⟨_, rfl, rfl⟩
-    · exact ⟨[], by simp, rfl⟩
-    · exact ⟨[], by simp, rfl⟩
+    (repeat' split) <;> refine ⟨⟨by simp, by simp⟩, rfl, ?_⟩ <;>
+      first | exact ⟨_, rfl, rfl⟩ | exact ⟨_, rfl, by simp [logRead]⟩ | exact ⟨[], by simp, rfl⟩
+  | drain =>
+    simp only [stepMain]
+    (repeat' split) <;> refine ⟨⟨by simp, by simp⟩, rfl, ?_⟩ <;>
+      first | exact ⟨_, rfl, rfl⟩ | exact ⟨_, rfl, by simp [logRead]⟩ | exact ⟨[], by simp, rfl⟩
+  | join =>
+    simp only [stepMain]
+    (repeat' split) <;> refine ⟨⟨by simp, by simp⟩, rfl, ?_⟩ <;>
+      first | exact ⟨_, rfl, rfl⟩ | exact ⟨_, rfl, by simp [logRead]⟩ | exact ⟨[], by simp, rfl⟩
+  | live =>
+    simp only [stepMain]
+    (repeat' split) <;> refine ⟨⟨by simp, by simp⟩, rfl, ?_⟩ <;>
+      first | exact ⟨_, rfl, rfl⟩ | exact ⟨_, rfl, by simp [logRead]⟩ | exact ⟨[], by simp, rfl⟩
   | cancel =>
     simp only [stepMain]
     exact ⟨⟨by simp, by simp⟩, by first | rfl | trivial, [], by simp, rfl⟩
-  | drain =>
-    simp only [stepMain]
-    (repeat' split) <;> refine ⟨⟨by simp, by simp⟩, rfl, ?_⟩
-    · exact ⟨_, rfl, rfl⟩
-    · exact ⟨[], by simp, rfl⟩
-    · exact ⟨[], by simp, rfl⟩
-    · exact ⟨[], by simp, rfl⟩
-  | join =>
-    simp only [stepMain]
-    (repeat' split) <;> refine ⟨⟨by simp, by simp⟩, rfl, ?_⟩
-    · exact ⟨[.error, .closed], rfl, rfl⟩
-    · exact ⟨[], by simp, rfl⟩
-  | live =>
-    simp only [stepMain]
-    (repeat' split) <;> refine ⟨⟨by simp, by simp⟩, rfl, ?_⟩
-    · exact ⟨[.closed], rfl, rfl⟩
-    · exact ⟨_, rfl, rfl⟩
-    · exact ⟨[], by simp, rfl⟩
   | done =>
     simp only [stepMain]
     exact ⟨⟨by simp, by simp⟩, by first | rfl | trivial, [], by simp, rfl⟩
